@@ -631,6 +631,13 @@ func ruleVarint(c *Ctx, r *RuleResult, encName, decName string) {
 					I := P.polyLoose(ia.Index)
 					S := P.polyLoose(sh.Y)
 					T = S.add(I.scale(8), 1)
+				} else if ph, ok := cv.(*ssa.Phi); ok {
+					// buf[I] = byte(xs) in a loop with xs = φ(x, xs >> K) and a counter j = φ(init, j ± 1)
+					// in the same header: in iteration t, xs = x >> K*t and j = init ± t, so the shift is
+					// K*(j - init) (counting up) or K*(init - j) (counting down).
+					if S, ok := shiftOfLoopPhi(P, ph, x, P.polyLoose(ia.Index)); ok {
+						T = S.add(P.polyLoose(ia.Index).scale(8), 1)
+					}
 				}
 			}
 		}
@@ -730,6 +737,69 @@ func ruleVarint(c *Ctx, r *RuleResult, encName, decName string) {
 	check(T.add(H.scale(8), -1).add(constP(8), 1).key() == "", "dawg.varint:byte order", "payload byte at index p is x >> (8*(length-1-p)): shift + 8*index = %s equals 8*(%s) - 8 (most significant byte first)", P.showTerm(T), P.showTerm(H))
 	check(decMax*8 == 64, "dawg.varint:max length", "decoder accepts up to %d payload bytes of 8 bits for a 64-bit value", decMax)
 	check(decShift == 8, "dawg.varint:decoder shift", "decoder accumulates x<<%d per byte", decShift)
+}
+
+// shiftOfLoopPhi recognises xs = φ(x, xs >> K) with a lock-step counter j = φ(init, j ± 1) in the
+// same loop header, where j is the counter the store index I is written in, and returns the
+// shift amount applied to x in terms of j.
+func shiftOfLoopPhi(P *Prover, xs *ssa.Phi, x ssa.Value, I Poly) (Poly, bool) {
+	if len(xs.Edges) != 2 {
+		return nil, false
+	}
+	initIdx := -1
+	var K int64
+	for k, e := range xs.Edges {
+		if stripAll(e) == x {
+			initIdx = k
+		}
+	}
+	if initIdx < 0 {
+		return nil, false
+	}
+	back, ok := stripAll(xs.Edges[1-initIdx]).(*ssa.BinOp)
+	if !ok || back.Op != token.SHR || stripAll(back.X) != ssa.Value(xs) {
+		return nil, false
+	}
+	if k, isK := constInt(back.Y); isK && k > 0 {
+		K = k
+	} else {
+		return nil, false
+	}
+	var found Poly
+	n := 0
+	for _, in := range xs.Block().Instrs {
+		j, ok := in.(*ssa.Phi)
+		if !ok || j == xs || len(j.Edges) != 2 || !isInt(j.Type()) {
+			continue
+		}
+		used := false
+		P.atomsOf(I, func(a *Atom) {
+			if a.kind == aVal && a.val == ssa.Value(j) {
+				used = true
+			}
+		})
+		if !used {
+			continue
+		}
+		step, ok := j.Edges[1-initIdx].(*ssa.BinOp)
+		if !ok || step.X != ssa.Value(j) {
+			continue
+		}
+		one, isK := constInt(step.Y)
+		if !isK || one != 1 || (step.Op != token.ADD && step.Op != token.SUB) {
+			continue
+		}
+		d := P.polyLoose(j).add(P.polyLoose(j.Edges[initIdx]), -1) // j - init
+		if step.Op == token.SUB {
+			d = d.scale(-1)
+		}
+		found = d.scale(K)
+		n++
+	}
+	if n != 1 {
+		return nil, false
+	}
+	return found, true
 }
 
 func stripAll(v ssa.Value) ssa.Value {
